@@ -211,6 +211,15 @@ fn check_pair(a: i64, b: i64, literal_too: bool) -> Result<bool, (String, String
             if got3 != want {
                 return Err((format!("literal form gave {:?}, oracle {:?}", got3, want), line3));
             }
+            // leading zeros do not change the type of a constant (up to 7 digits an Integer that
+            // fits is an Integer)
+            if a >= 0 && b >= 0 {
+                let line5 = format!("PRINT {:06} {} {:07}", a, op, b);
+                let got5 = run_line(&mut t, &line5);
+                if got5 != want {
+                    return Err((format!("constants padded with zeros gave {:?}, oracle {:?}", got5, want), line5));
+                }
+            }
             // the same as a stored program line (compiled with the program, not with a direct line);
             // non-negative literals so that the text holds two plain Integer constants
             if a >= 0 && b >= 0 {
